@@ -126,6 +126,21 @@ pub fn cycles<const V: u32>(d: &mut Driver<V>, p: &Params, ncycles: u64, heap_mb
         let mut failed = 0u64;
         let mut count = 0u64;
         let mut mid_done = false;
+        if flag("tryfirst") {
+            // short-lived objects worth more than a heap: the collections of this cycle are
+            // triggered by allocation, i.e. non-blocking requests are refused when one is due
+            let mut churned = 0usize;
+            while churned < heap_mb * (1 << 20) * 5 / 4 {
+                safepoint();
+                let size = if d.rng.chance(1, 40) { 8 * d.rng.range(2000, 20000) as usize } else { 8 * d.rng.range(8, 600) as usize };
+                let sem = if size >= 8192 && p.sems.contains(&2) { 2 } else { 0 };
+                if d.new_object(0, 3, sem, size, 0, 8, 0, KIND_PLAIN) == 0 {
+                    break;
+                }
+                Driver::<V>::root_set(0, 3, 0);
+                churned += if page_per_object { size.max(4096) } else { size };
+            }
+        }
         while allocated < budget {
             safepoint();
             let size = match mix {
